@@ -300,6 +300,27 @@ def run(ctx, info):
                 failures.append({'kind': 'oracle', 'finding': fid, 'summary': f'{json.dumps(t)[:160]}: {desc}', 'case': {'tree': t}})
     ctx.oblige('oracle: unparse then re-parse gives the same structure and text; input untouched; no word dropped (outside listed findings)', 'oracle',
                nb == 0, f'{nb} unlisted violations in {len(trees)} trees; listed classes hit {known}')
+    # unparse accepts any element of a larger tree (an inline followed by text included) without error and leaves the tree as it was
+    nsub = nsubbad = 0
+    from bluebell.parser import AkomaNtosoParser
+    for t in trees[:ctx.budget(120, 1500)]:
+        el = eidlib.to_etree(t)
+        subs = [e for e in el.iter() if e is not el and isinstance(e.tag, str)]
+        before = real.full_canon(el)
+        for e in rng.sample(subs, min(3, len(subs))):
+            nsub += 1
+            try:
+                AkomaNtosoParser(None).unparse(e)
+                ok = real.full_canon(el) == before
+                why = 'unparse of a sub-element modified the tree'
+            except Exception as ex:  # noqa
+                ok, why = False, f'unparse of a sub-element <{e.tag.split("}")[-1]}> raised {type(ex).__name__}'
+            if not ok:
+                nsubbad += 1
+                if len(failures) < 20:
+                    failures.append({'kind': 'oracle', 'finding': None, 'summary': f'{json.dumps(t)[:140]}: {why}', 'case': {'tree': t, 'sub': el.getroottree().getpath(e)}})
+    ctx.oblige('oracle: unparse of any sub-element of a tree (tails included) does not raise and leaves the tree untouched', 'oracle', nsubbad == 0,
+               f'{nsubbad} of {nsub} sub-elements')
     if drv:
         ms = drv.batch_parallel([{'op': 'unparse', 'tree': eidlib.ordered(t)} for t in trees], jobs=12)
         bad = []
@@ -327,6 +348,18 @@ def replay(ctx, rep):
     if 'tree' not in c:
         print('replay file names broken obligations only:', json.dumps(rep.get('broken_obligations'))[:1000])
         return 1
+    if 'sub' in c:
+        from bluebell.parser import AkomaNtosoParser
+        el = eidlib.to_etree(c['tree'])
+        e = el.getroottree().xpath(c['sub'])[0]
+        before = real.full_canon(el)
+        try:
+            AkomaNtosoParser(None).unparse(e)
+            bad = real.full_canon(el) != before
+        except Exception as ex:  # noqa
+            bad = True
+        print('REPRODUCED' if bad else 'not reproduced')
+        return 1 if bad else 0
     v = violation(c['tree'])
     print('REPRODUCED: ' + v[0] if v else 'not reproduced')
     return 1 if v else 0
